@@ -111,27 +111,32 @@ TypeOf(t, ctx) ==
     [] t.k = "arr"  -> "[]any"
     [] t.k = "map"  -> "map[string]any"
 
-(* C17: operator overloading.  With `+` mapped to Add(int, int) int every     *)
-(* occurrence of `+` whose operands are both statically int is the call       *)
-(* Add(l, r), wherever it sits; every other occurrence keeps its meaning.     *)
-RECURSIVE Overload(_, _)
-OverloadList(ts, ctx) == [i \in 1..Len(ts) |-> Overload(ts[i], ctx)]
-Overload(t, ctx) ==
+(* C17: operator overloading.  With `+` mapped to a function fn(pty, pty)     *)
+(* every occurrence of `+` whose operands are both statically of type pty is   *)
+(* the call fn(l, r), wherever it sits; every other occurrence keeps its       *)
+(* meaning.  Overload: `+` -> Add(int, int) int.  OverloadF: the same operator *)
+(* mapped, in another environment, to a function of the same name whose        *)
+(* parameters are float64 (written AddF here).                                 *)
+RECURSIVE OverloadP(_, _, _, _)
+OverloadListP(ts, ctx, pty, fn) == [i \in 1..Len(ts) |-> OverloadP(ts[i], ctx, pty, fn)]
+OverloadP(t, ctx, pty, fn) ==
   CASE t.k \in {"nil", "bool", "int", "float", "str", "id", "ptr", "none"} -> t
-    [] t.k = "un"   -> NUn(t.op, Overload(t.x, ctx))
-    [] t.k = "bin"  -> IF t.op = "+" /\ TypeOf(t.l, ctx) = "int" /\ TypeOf(t.r, ctx) = "int"
-                       THEN NCall("Add", <<Overload(t.l, ctx), Overload(t.r, ctx)>>)
-                       ELSE NBin(t.op, Overload(t.l, ctx), Overload(t.r, ctx))
-    [] t.k = "prop" -> NProp(Overload(t.x, ctx), t.name, t.ns)
-    [] t.k = "idx"  -> NIdx(Overload(t.x, ctx), Overload(t.i, ctx))
-    [] t.k = "slice" -> NSlice(Overload(t.x, ctx), Overload(t.from, ctx), Overload(t.to, ctx))
-    [] t.k = "meth" -> NMeth(Overload(t.x, ctx), t.name, OverloadList(t.args, ctx), t.ns)
-    [] t.k = "call" -> NCall(t.name, OverloadList(t.args, ctx))
-    [] t.k = "len"  -> NLen(Overload(t.x, ctx))
-    [] t.k = "bi"   -> NBi(t.name, Overload(t.x, ctx), Overload(t.body, TypeOf(t.x, ctx)))
-    [] t.k = "cond" -> NCond(Overload(t.c, ctx), Overload(t.a, ctx), Overload(t.b, ctx))
-    [] t.k = "arr"  -> NArr(OverloadList(t.xs, ctx))
-    [] t.k = "map"  -> NMap(t.ks, OverloadList(t.vs, ctx))
+    [] t.k = "un"   -> NUn(t.op, OverloadP(t.x, ctx, pty, fn))
+    [] t.k = "bin"  -> IF t.op = "+" /\ TypeOf(t.l, ctx) = pty /\ TypeOf(t.r, ctx) = pty
+                       THEN NCall(fn, <<OverloadP(t.l, ctx, pty, fn), OverloadP(t.r, ctx, pty, fn)>>)
+                       ELSE NBin(t.op, OverloadP(t.l, ctx, pty, fn), OverloadP(t.r, ctx, pty, fn))
+    [] t.k = "prop" -> NProp(OverloadP(t.x, ctx, pty, fn), t.name, t.ns)
+    [] t.k = "idx"  -> NIdx(OverloadP(t.x, ctx, pty, fn), OverloadP(t.i, ctx, pty, fn))
+    [] t.k = "slice" -> NSlice(OverloadP(t.x, ctx, pty, fn), OverloadP(t.from, ctx, pty, fn), OverloadP(t.to, ctx, pty, fn))
+    [] t.k = "meth" -> NMeth(OverloadP(t.x, ctx, pty, fn), t.name, OverloadListP(t.args, ctx, pty, fn), t.ns)
+    [] t.k = "call" -> NCall(t.name, OverloadListP(t.args, ctx, pty, fn))
+    [] t.k = "len"  -> NLen(OverloadP(t.x, ctx, pty, fn))
+    [] t.k = "bi"   -> NBi(t.name, OverloadP(t.x, ctx, pty, fn), OverloadP(t.body, TypeOf(t.x, ctx), pty, fn))
+    [] t.k = "cond" -> NCond(OverloadP(t.c, ctx, pty, fn), OverloadP(t.a, ctx, pty, fn), OverloadP(t.b, ctx, pty, fn))
+    [] t.k = "arr"  -> NArr(OverloadListP(t.xs, ctx, pty, fn))
+    [] t.k = "map"  -> NMap(t.ks, OverloadListP(t.vs, ctx, pty, fn))
+Overload(t, ctx)  == OverloadP(t, ctx, "int", "Add")
+OverloadF(t, ctx) == OverloadP(t, ctx, "float64", "AddF")
 
 (* the operand types are all specific: the expression is statically typed *)
 Typed(t) == t # "any"
